@@ -32,3 +32,28 @@ __CPROVER_assigns(g_cstep)
 __CPROVER_ensures(g_cstep == 2)                                                   /*@ob C15.copy-and-move-construction-is-default-construction-then-assignment */
 ;
 #endif
+/* ---- special member functions of the event occurrences kept in the event pool (C15: a copied machine has the same pending events,
+   C20: value semantics of stored events).  event_occurrence / deferred_event declare no copy or move operations: the compiler-generated
+   member-wise ones are modelled by `*self = *other` (default_body of an optional part); if a change adds a user-provided one, it is
+   extracted (INITLIST + body, default member initialisers first) and must satisfy the same contract. ---- */
+#if UNIT_EO
+typedef struct { int m_process_fn; _Bool m_marked_for_deletion; } eo_t;        /* data members of event_occurrence (must_contain patterns of the unit) */
+#define EO_DEFAULT_MEMBER_INIT(self) ((self)->m_process_fn = 0, (self)->m_marked_for_deletion = 0)   /* `{}` initialisers */
+void eo_copy(eo_t* self, const eo_t* other)
+__CPROVER_requires(__CPROVER_is_fresh(self, sizeof(*self)) && __CPROVER_is_fresh(other, sizeof(*other)))
+__CPROVER_assigns(__CPROVER_object_whole(self))
+__CPROVER_ensures(self->m_process_fn == other->m_process_fn)                                  /*@ob C15,C20.copied-occurrence-dispatches-to-the-same-function */
+__CPROVER_ensures((self->m_marked_for_deletion != 0) == (other->m_marked_for_deletion != 0))  /*@ob C15.copied-occurrence-keeps-its-already-processed-mark */
+;
+#endif
+#if UNIT_DE
+typedef struct { int m_process_fn; _Bool m_marked_for_deletion; uint16_t m_seq_cnt; event_t m_event; } de_t;   /* deferred_event<Event> : event_occurrence */
+#define EO_DEFAULT_MEMBER_INIT(self) ((self)->m_process_fn = 0, (self)->m_marked_for_deletion = 0)
+void de_copy(de_t* self, const de_t* other)
+__CPROVER_requires(__CPROVER_is_fresh(self, sizeof(*self)) && __CPROVER_is_fresh(other, sizeof(*other)))
+__CPROVER_assigns(__CPROVER_object_whole(self))
+__CPROVER_ensures(self->m_process_fn == other->m_process_fn && (self->m_marked_for_deletion != 0) == (other->m_marked_for_deletion != 0))   /*@ob C15.copied-occurrence-keeps-its-already-processed-mark */
+__CPROVER_ensures(self->m_seq_cnt == other->m_seq_cnt)                                        /*@ob C15,C05.copied-deferred-event-keeps-its-cycle-number */
+__CPROVER_ensures(self->m_event.type == other->m_event.type && self->m_event.payload == other->m_event.payload)   /*@ob C15,C18,C20.copied-deferred-event-keeps-type-and-payload */
+;
+#endif
